@@ -7,6 +7,7 @@
    cfg (UDP on/off, bandwidth settings) and masq (the masquerade handler, any function) are arbitrary. *)
 From Hy Require Import model.C01_ServerAuth proof.C01_ServerAuth proof.C01_AnyId.
 From Hy Require Import model.C01_Compose proof.C01_Compose.
+From Hy Require Import gen.ParamsC01 model.C01_Lifecycle proof.C01_Lifecycle.
 Local Open Scope N_scope.
 
 (* Every Outbound.TCP / Outbound.UDP call and every relayed payload for a connection c is preceded, in the
@@ -136,3 +137,80 @@ Theorem C01_composed_labels_never_block : forall cfg masq md timeout acts k tr,
      end).
 Proof. exact composed_labels_never_block. Qed.
 Print Assumptions C01_composed_labels_never_block.
+
+(* ---- Connection lifecycle.  model/C01_Lifecycle.v adds the BEGINNING of a connection to the LTS (its end, ConnClosed,
+   is in the base LTS): `LAccept c` = listener.Accept returned a new connection and handleClient allocated its handler
+   with newH3sHandler; c is any id that has never been used on this server, live or ended; `LAct a` = a base action of a
+   connection that has been accepted.  `lrun cfg masq linit xs = Some (l, tr)`: xs - connections coming, authenticating
+   or not, proxying, ending, new ones coming, in any number, in any interleaving - is a behaviour of the server. *)
+
+(* A lifecycle run is a run of the base LTS (accepts erased) with the same trace and the same handlers: every theorem
+   above holds of histories in which connections end and new ones are accepted afterwards. *)
+Theorem C01_lifecycle_refines_abstract : forall cfg masq xs l tr,
+  lrun cfg masq linit xs = Some (l, tr) ->
+  exists s, run cfg masq init (lacts xs) = Some (s, tr) /\ forall c, s c = l_base l c.
+Proof. exact lifecycle_refines_abstract. Qed.
+Print Assumptions C01_lifecycle_refines_abstract.
+
+(* A terminated connection's id is never reused: in a run every id is accepted at most once, an id that has been
+   accepted - whether its connection has ended or not - can not be accepted again, and only accepted connections act. *)
+Theorem C01_connection_id_never_reused : forall cfg masq xs l tr,
+  lrun cfg masq linit xs = Some (l, tr) ->
+  NoDup (laccepts xs) /\
+  (forall c, In c (laccepts xs) -> lstep cfg masq l (LAccept c) = None) /\
+  (forall a, In (LAct a) xs -> In (act_conn a) (laccepts xs)).
+Proof. exact connection_id_never_reused. Qed.
+Print Assumptions C01_connection_id_never_reused.
+
+(* A new connection starts unauthenticated, whatever the server has been through (any number of connections accepted,
+   authenticated, ended): nothing in the past belongs to it, its handler is the zero handler (flag clear, no id, nothing
+   that could reach the outbound), every other handler is untouched, the accept makes nothing observable, and no
+   outbound / relay step is enabled for it. *)
+Theorem C01_new_connection_starts_unauthenticated : forall cfg masq xs l tr c l' e,
+  lrun cfg masq linit xs = Some (l, tr) -> lstep cfg masq l (LAccept c) = Some (l', e) ->
+  e = [] /\ l_base l' c = conn0 /\ authed (l_base l' c) = false /\ gate_closed (l_base l' c) /\
+  (forall c', c' <> c -> l_base l' c' = l_base l c') /\
+  (forall e0, In e0 tr -> ev_conn e0 <> c) /\
+  (forall addr, lstep cfg masq l' (LAct (TcpDial c addr)) = None) /\
+  (forall addr, lstep cfg masq l' (LAct (UdpRecv c addr)) = None) /\
+  (forall addr n, lstep cfg masq l' (LAct (TcpRelay c addr n)) = None) /\
+  (forall addr n, lstep cfg masq l' (LAct (UdpRelay c addr n)) = None).
+Proof. exact new_connection_starts_unauthenticated. Qed.
+Print Assumptions C01_new_connection_starts_unauthenticated.
+
+(* ... and whatever follows its accept (ys: anything, on any connections): every Outbound.TCP / Outbound.UDP call and every
+   relayed payload for the new connection c is preceded by an accepting verdict on c taken AFTER c was accepted (in the
+   part of the trace that follows the accept).  Verdicts of the past - on connections that have ended or are still
+   there - never count for c. *)
+Theorem C01_fresh_connection_needs_its_own_verdict : forall cfg masq xs l tr c ys l2 tr2,
+  lrun cfg masq linit xs = Some (l, tr) -> lrun cfg masq l (LAccept c :: ys) = Some (l2, tr2) ->
+  forall pre e post, tr2 = pre ++ e :: post -> outbound_conn e = Some c ->
+    exists id pad, In (EAct (AuthVerdict c true id pad)) pre.
+Proof. exact fresh_connection_needs_its_own_verdict. Qed.
+Print Assumptions C01_fresh_connection_needs_its_own_verdict.
+
+(* A connection's authorisation depends on its own history only.  own c xs = what c itself did in xs (its accept and its
+   actions, in order); own_tr c tr = what the trace shows of c.  (1) c's own history, alone on a fresh server, is a
+   behaviour; it ends with the same handler for c (flag, id, streams, sessions, closed) and shows the same of c, and
+   touches no other handler.  (2) Two runs of the server - however different in what OTHER connections did, were
+   answered, or whether they ended - in which c did the same: c's handler and everything observable of c are the same. *)
+Theorem C01_authorisation_depends_only_on_own_history : forall cfg masq c xs1 l1 tr1,
+  lrun cfg masq linit xs1 = Some (l1, tr1) ->
+  (exists m, lrun cfg masq linit (own c xs1) = Some (m, own_tr c tr1) /\ l_base m c = l_base l1 c /\
+             forall c', c' <> c -> l_base m c' = conn0) /\
+  (forall xs2 l2 tr2, lrun cfg masq linit xs2 = Some (l2, tr2) -> own c xs1 = own c xs2 ->
+     l_base l1 c = l_base l2 c /\ own_tr c tr1 = own_tr c tr2).
+Proof. exact authorisation_depends_only_on_own_history. Qed.
+Print Assumptions C01_authorisation_depends_only_on_own_history.
+
+(* The authentication request is exactly POST / authority "hysteria" / path "/auth" (byte-wise).  Any other request on
+   an open connection - authenticated or not; e.g. the authority followed by a port or a dot: a longer authority is
+   never the right one - is one step: the masquerade handler alone; the authenticator is not consulted and no handler
+   changes, whatever credentials the request carries. *)
+Theorem C01_only_the_exact_auth_request_consults_the_authenticator : forall cfg masq s c r pad,
+  closed (s c) = false ->
+  (r_method r <> method_post \/ r_host r <> url_host \/ r_path r <> url_path) ->
+  step cfg masq s (HttpReq c r pad) = Some (s, [ObsMasq c r; ObsResp c r (masq r)]) /\
+  (forall x rest, url_host ++ x :: rest <> url_host).
+Proof. exact only_the_exact_auth_request_consults_the_authenticator. Qed.
+Print Assumptions C01_only_the_exact_auth_request_consults_the_authenticator.
